@@ -358,6 +358,13 @@ def run(res, tier):
     res.rule("C13.3 construction facts of rebuild() (sorter type+args, split argument, emplace_back/parent/index calls with argument origins, conditions, level interval) equal the constructor's")
     res.rule("C13.4 rebuild clears both containers and re-creates every group through the constructors that zero-initialise (C06.1)")
     rebuild = tbf.expand_member_helpers(facts, facts.fn("TbfTree::rebuild"))
+    res.rule("C13.7 repeated cycles in periodic mode: the expansions of the virtual levels the top-tree executors keep are zeroed at the head of the stage that recomputes them (multipoles: M2M, locals: M2L) - rebuild() zeroes the cells of the tree only")
+    import c12 as _c12
+    n7 = 0
+    for cls7 in _c12.TOPTREE:
+        if hasattr(_c12.toptree_state, "last"):
+            _c12.toptree_state.last.pop(cls7, None)
+        n7 += _c12.toptree_fresh_pass(facts, cls7, res)
     res.rule("C13.6 results follow the particle: outside construction, whoever rewrites the original index stored at a slot also writes that slot's results in the same function")
     nctor = results_follow_particle(facts, res)
     res.floor("C13.6", nctor, 1, "constructors writing the index block")
